@@ -287,9 +287,10 @@ def gen_id(g, concat=None):
             k = rng.randint(0, len(fr))
             cat = Cat([slot_dim(s) for s in slots])
             dims = [a.copy() for a in fr[:k]] + [cat] + [a.copy() for a in fr[k:]]
-            if len(dims) >= 2 and rng.random() < 0.3:
-                j = rng.randint(0, len(dims) - 2)
-                dims = dims[:j] + [Fl(dims[j:j + 2])] + dims[j + 2:]
+            for _ in range(2):                                 # the concatenation may end up one or two flattened axes deep
+                if len(dims) >= 2 and rng.random() < 0.3:
+                    j = rng.randint(0, len(dims) - 2)
+                    dims = dims[:j] + [Fl(dims[j:j + 2])] + dims[j + 2:]
             return [dims]
 
         def separate():
